@@ -33,6 +33,7 @@
 import YataProofs.Indicators.More
 import YataProofs.Indicators.Signals
 import YataProofs.Indicators.Signals2
+import YataProofs.Indicators.SARRun
 namespace Yata.C06
 open Yata Yata.Ind
 
@@ -207,6 +208,18 @@ example : ((({ af_step := 1/50, af_max := 1/5, trend := 1, trend_inc := 1, low :
   simp [SAR.next, Action.ofI8]
   norm_num
 
+/-- Parabolic SAR over whole streams, from its constructor: the signal of step `i` fires exactly when the returned trend
+    differs from the one returned at step `i − 1` (from 0, "no trend yet", at the first step): full buy for a new up-trend,
+    full sell for a new down-trend -/
+theorem C06_sar_run (a b : ℚ) (k0 : Candle ℚ) (s0 : SAR) (h0 : SAR.init a b k0 = .ok s0) (cs : List (Candle ℚ))
+    (hv : ∀ k ∈ cs, k.low ≤ k.high) :
+    ∀ i (hi : i < cs.length),
+      let o := (SAR.run s0 cs).1[i]'(by rw [SAR.run_length]; exact hi)
+      let f := (SAR.flips s0 cs)[i]'(by rw [SAR.flips_length]; exact hi)
+      o.1.map VExp.value = [f.sar, (f.trend : ℚ)] ∧
+      o.2 = SAR.rule (if _h : i = 0 then 0 else ((SAR.flips s0 cs)[i - 1]'(by rw [SAR.flips_length]; omega)).trend) f.trend :=
+  SAR.run_signals a b k0 s0 h0 cs hv
+
 end Yata.C06
 
 #print axioms Yata.C06.C06_macd
@@ -232,3 +245,4 @@ end Yata.C06
 #print axioms Yata.C06.C06_momentum_index
 #print axioms Yata.C06.C06_adx
 #print axioms Yata.C06.C06_single_crossings
+#print axioms Yata.C06.C06_sar_run
